@@ -1,4 +1,5 @@
-// Reproducers for the two findings of the blockgen2 slice (run: GOFLAGS=-mod=mod GOPROXY=off go run .)
+// Reproducers for the two findings of the blockgen2 slice (F43, repaired by /repo dfafae0: A now round-trips;
+// F44, repaired by /repo af780d6: B now prints identical = true) (run: GOFLAGS=-mod=mod GOPROXY=off go run .)
 //
 //  A. (C01) chains with five or more SRT stages on 1 KiB blocks are written without error but cannot be read
 //     back: every SRT stage adds at least 256 header bytes, the post-transform length exceeds the Reader's
